@@ -6,29 +6,64 @@ import HapVerif.Spec.Tlv8
 namespace HapVerif.Tlv
 open HapVerif.Spec.Tlv8
 
-theorem decodeAux_fuel2 (ex) : ∀ (f1 f2 : Nat) (bs : Bytes) (acc), bs.length ≤ f1 → bs.length ≤ f2 →
-    decodeAux ex f1 bs acc = decodeAux ex f2 bs acc := by
+/-- the loop without a filter (what `decodeAux none … false` computes, see `decodeAux_none`) -/
+def decodeU : Nat → Bytes → Items → Except Err Items
+  | 0, _, acc => .ok acc
+  | _, [], acc => .ok acc
+  | fuel+1, k :: tail, acc =>
+    match tail with
+    | [] => .error .parse
+    | len :: rest =>
+      let value := rest.take len.toNat
+      if value.length ≠ len.toNat then .error .parse
+      else decodeU fuel (rest.drop len.toNat) (push acc k value)
+
+/-- a filter that rejects none of the types met behaves like no filter at all -/
+theorem decodeAux_unfiltered (ex : Option (List UInt8)) : ∀ (fuel : Nat) (bs : Bytes) (acc : Items),
+    (∀ b ∈ bs, filtered ex b = false) → decodeAux ex fuel bs acc false = decodeU fuel bs acc := by
+  intro fuel
+  induction fuel with
+  | zero => intro bs acc _; rfl
+  | succ n ih =>
+    intro bs acc h
+    match bs with
+    | [] => rfl
+    | [k] => simp [decodeAux, decodeU, h k (by simp)]
+    | k :: len :: rest =>
+      simp only [decodeAux, decodeU, h k (by simp), Bool.false_eq_true, if_false]
+      split
+      · rfl
+      · exact ih _ _ (fun b hb => h b (by
+          simp only [List.mem_cons]
+          right; right; exact List.mem_of_mem_drop hb))
+
+theorem decodeAux_none (fuel : Nat) (bs : Bytes) (acc : Items) :
+    decodeAux none fuel bs acc false = decodeU fuel bs acc :=
+  decodeAux_unfiltered none fuel bs acc (fun _ _ => rfl)
+
+theorem decodeAux_fuel2 : ∀ (f1 f2 : Nat) (bs : Bytes) (acc), bs.length ≤ f1 → bs.length ≤ f2 →
+    decodeU f1 bs acc = decodeU f2 bs acc := by
   intro f1
   induction f1 with
   | zero =>
     intro f2 bs acc h1 h2
     have : bs = [] := by cases bs <;> simp_all
-    subst this; cases f2 <;> simp [decodeAux]
+    subst this; cases f2 <;> simp [decodeU]
   | succ n ih =>
     intro f2 bs acc h1 h2
     match bs, f2 with
-    | [], f2 => cases f2 <;> simp [decodeAux]
-    | [k], f2 + 1 => simp [decodeAux]
+    | [], f2 => cases f2 <;> simp [decodeU]
+    | [k], f2 + 1 => simp [decodeU]
     | k :: len :: rest, 0 => simp at h2
     | k :: len :: rest, f2 + 1 =>
-      have e : decodeAux ex n (rest.drop len.toNat) (push acc k (rest.take len.toNat))
-             = decodeAux ex f2 (rest.drop len.toNat) (push acc k (rest.take len.toNat)) := by
+      have e : decodeU n (rest.drop len.toNat) (push acc k (rest.take len.toNat))
+             = decodeU f2 (rest.drop len.toNat) (push acc k (rest.take len.toNat)) := by
         apply ih <;> simp at h1 h2 ⊢ <;> omega
-      simp only [decodeAux, e]
+      simp only [decodeU, e]
 
-theorem decodeAux_fuel (ex) (fuel : Nat) (bs : Bytes) (acc) (h : bs.length ≤ fuel) :
-    decodeAux ex fuel bs acc = decodeAux ex bs.length bs acc :=
-  decodeAux_fuel2 ex _ _ _ _ h (Nat.le_refl _)
+theorem decodeAux_fuel (fuel : Nat) (bs : Bytes) (acc) (h : bs.length ≤ fuel) :
+    decodeU fuel bs acc = decodeU bs.length bs acc :=
+  decodeAux_fuel2 _ _ _ _ h (Nat.le_refl _)
 
 theorem toNat_ofNat_min (n : Nat) : (UInt8.ofNat (min n 255)).toNat = min n 255 := by
   have : min n 255 < 256 := by omega
@@ -41,13 +76,13 @@ theorem toNat_ofNat_le (n : Nat) (h : n ≤ 255) : (UInt8.ofNat n).toNat = n := 
 /-- one wire item in front of `rest`, decoded without a filter -/
 theorem decodeAux_step (k : UInt8) (v rest : Bytes) (acc : Items) (fuel : Nat) (hv : v.length ≤ 255)
     (hf : (k :: UInt8.ofNat v.length :: (v ++ rest)).length ≤ fuel) :
-    decodeAux none fuel (k :: UInt8.ofNat v.length :: (v ++ rest)) acc
-      = decodeAux none rest.length rest (push acc k v) := by
+    decodeU fuel (k :: UInt8.ofNat v.length :: (v ++ rest)) acc
+      = decodeU rest.length rest (push acc k v) := by
   obtain ⟨fuel', rfl⟩ : ∃ f, fuel = f + 1 := by
     cases fuel with
     | zero => simp at hf
     | succ f => exact ⟨f, rfl⟩
-  simp only [decodeAux, filtered, Bool.false_eq_true, if_false, toNat_ofNat_le _ hv]
+  simp only [decodeU, toNat_ofNat_le _ hv]
   have htake : (v ++ rest).take v.length = v := List.take_left' rfl
   have hdrop : (v ++ rest).drop v.length = rest := List.drop_left' rfl
   simp only [htake, hdrop, ne_eq, not_true_eq_false, if_false]
@@ -57,8 +92,8 @@ theorem decodeAux_step (k : UInt8) (v rest : Bytes) (acc : Items) (fuel : Nat) (
 /-- Fragments of one value, arriving after an item of the same key, are merged into it. -/
 theorem decode_frags (k : UInt8) : ∀ (n : Nat) (v p : Bytes) (rest : Bytes) (acc) (fuel : Nat),
     v.length ≤ n → (encFrag k n v ++ rest).length ≤ fuel →
-    decodeAux none fuel (encFrag k n v ++ rest) ((k, p) :: acc)
-      = decodeAux none rest.length rest ((k, p ++ v) :: acc) := by
+    decodeU fuel (encFrag k n v ++ rest) ((k, p) :: acc)
+      = decodeU rest.length rest ((k, p ++ v) :: acc) := by
   intro n
   induction n with
   | zero =>
@@ -66,13 +101,13 @@ theorem decode_frags (k : UInt8) : ∀ (n : Nat) (v p : Bytes) (rest : Bytes) (a
     have : v = [] := by cases v <;> simp_all
     subst this
     simp [encFrag] at hf ⊢
-    exact decodeAux_fuel _ _ _ _ hf
+    exact decodeAux_fuel _ _ _ hf
   | succ n ih =>
     intro v p rest acc fuel hv hf
     match v, hv with
     | [], _ =>
       simp [encFrag] at hf ⊢
-      exact decodeAux_fuel _ _ _ _ hf
+      exact decodeAux_fuel _ _ _ hf
     | b :: v', hv =>
       have hlen : ((b :: v').take 255).length = min (b :: v').length 255 := by
         simp [List.length_take]; omega
@@ -98,7 +133,7 @@ theorem push_new (acc) (k v) (h : headKeyNe acc k) : push acc k v = (k, v) :: ac
 /-- One item (empty or not) is decoded to exactly that item. -/
 theorem decode_item (k : UInt8) (v : Bytes) (rest : Bytes) (acc) (fuel : Nat)
     (hk : headKeyNe acc k) (hf : (encItem k v ++ rest).length ≤ fuel) :
-    decodeAux none fuel (encItem k v ++ rest) acc = decodeAux none rest.length rest ((k, v) :: acc) := by
+    decodeU fuel (encItem k v ++ rest) acc = decodeU rest.length rest ((k, v) :: acc) := by
   match v with
   | [] =>
     have e : encItem k [] ++ rest = k :: UInt8.ofNat ([] : Bytes).length :: ([] ++ rest) := by
@@ -130,10 +165,10 @@ def WF : Items → Prop
 theorem decode_list : ∀ (l : Items) (acc) (fuel : Nat), WF l →
     (match l with | [] => True | (k, _) :: _ => headKeyNe acc k) →
     (encodeList l).length ≤ fuel →
-    decodeAux none fuel (encodeList l) acc = .ok (l.reverse ++ acc) := by
+    decodeU fuel (encodeList l) acc = .ok (l.reverse ++ acc) := by
   intro l
   induction l with
-  | nil => intro acc fuel _ _ _; cases fuel <;> simp [encodeList, decodeAux]
+  | nil => intro acc fuel _ _ _; cases fuel <;> simp [encodeList, decodeU]
   | cons kv l ih =>
     obtain ⟨k, v⟩ := kv
     intro acc fuel hwf hk hf
@@ -279,47 +314,37 @@ theorem foldl_push_merge_nil (raw : List (UInt8 × Bytes)) :
 theorem rawEncode_cons (t v raw) : rawEncode ((t, v) :: raw) = t :: UInt8.ofNat v.length :: (v ++ rawEncode raw) := by
   simp [rawEncode]
 
-/-- decoding a raw item sequence (any filter that allows all of them) followed by either nothing
-    or a type the filter rejects yields the pushes of exactly those items -/
-theorem decodeAux_raw (ex : Option (List UInt8)) : ∀ (raw : List (UInt8 × Bytes)) (rest : Bytes) (acc : Items) (fuel : Nat),
-    (∀ r ∈ raw, r.2.length ≤ 255 ∧ filtered ex r.1 = false) →
-    (rest = [] ∨ ∃ k tl, rest = k :: tl ∧ filtered ex k = true) →
-    (rawEncode raw ++ rest).length ≤ fuel →
-    decodeAux ex fuel (rawEncode raw ++ rest) acc
+/-- decoding a raw item sequence yields the pushes of exactly those items -/
+theorem decodeU_raw : ∀ (raw : List (UInt8 × Bytes)) (acc : Items) (fuel : Nat),
+    (∀ r ∈ raw, r.2.length ≤ 255) → (rawEncode raw).length ≤ fuel →
+    decodeU fuel (rawEncode raw) acc
       = .ok (raw.foldl (fun a (kv : UInt8 × Bytes) => push a kv.1 kv.2) acc) := by
   intro raw
   induction raw with
   | nil =>
-    intro rest acc fuel _ hrest hf
-    simp only [rawEncode, List.flatMap_nil, List.nil_append, List.foldl_nil]
-    rcases hrest with rfl | ⟨k, tl, rfl, hk⟩
-    · cases fuel <;> simp [decodeAux]
-    · cases fuel with
-      | zero => simp at hf
-      | succ f => simp [decodeAux, hk]
+    intro acc fuel _ hf
+    simp only [rawEncode, List.flatMap_nil, List.foldl_nil]
+    cases fuel <;> simp [decodeU]
   | cons kv raw ih =>
     obtain ⟨t, v⟩ := kv
-    intro rest acc fuel hall hrest hf
+    intro acc fuel hall hf
     have ht := hall (t, v) (by simp)
     obtain ⟨fuel', rfl⟩ : ∃ f, fuel = f + 1 := by
       cases fuel with
       | zero => simp [rawEncode_cons] at hf
       | succ f => exact ⟨f, rfl⟩
     rw [rawEncode_cons] at hf ⊢
-    simp only [List.cons_append, List.append_assoc, decodeAux, ht.2, Bool.false_eq_true, if_false,
-      toNat_ofNat_le _ ht.1]
-    have htake : (v ++ (rawEncode raw ++ rest)).take v.length = v := List.take_left' rfl
-    have hdrop : (v ++ (rawEncode raw ++ rest)).drop v.length = rawEncode raw ++ rest := List.drop_left' rfl
+    simp only [decodeU, toNat_ofNat_le _ ht]
+    have htake : (v ++ rawEncode raw).take v.length = v := List.take_left' rfl
+    have hdrop : (v ++ rawEncode raw).drop v.length = rawEncode raw := List.drop_left' rfl
     simp only [htake, hdrop, ne_eq, not_true_eq_false, if_false, List.foldl_cons]
-    apply ih _ _ _ (fun r hr => hall r (List.mem_cons_of_mem _ hr)) hrest
+    apply ih _ _ (fun r hr => hall r (List.mem_cons_of_mem _ hr))
     simp at hf ⊢; omega
 
-/-- every successful decode consumed a sequence of *complete* wire items and stopped either at
-    the end of the input or at a type the filter rejects -/
-theorem decodeAux_sound (ex : Option (List UInt8)) : ∀ (fuel : Nat) (bs : Bytes) (acc res : Items),
-    bs.length ≤ fuel → decodeAux ex fuel bs acc = .ok res →
-    ∃ raw rest, bs = rawEncode raw ++ rest ∧ (∀ r ∈ raw, r.2.length ≤ 255 ∧ filtered ex r.1 = false) ∧
-      (rest = [] ∨ ∃ k tl, rest = k :: tl ∧ filtered ex k = true) ∧
+/-- every successful decode consumed a sequence of *complete* wire items -/
+theorem decodeU_sound : ∀ (fuel : Nat) (bs : Bytes) (acc res : Items),
+    bs.length ≤ fuel → decodeU fuel bs acc = .ok res →
+    ∃ raw, bs = rawEncode raw ∧ (∀ r ∈ raw, r.2.length ≤ 255) ∧
       res = raw.foldl (fun a (kv : UInt8 × Bytes) => push a kv.1 kv.2) acc := by
   intro fuel
   induction fuel with
@@ -327,39 +352,31 @@ theorem decodeAux_sound (ex : Option (List UInt8)) : ∀ (fuel : Nat) (bs : Byte
     intro bs acc res hl h
     have : bs = [] := by cases bs <;> simp_all
     subst this
-    simp [decodeAux] at h
-    exact ⟨[], [], by simp [rawEncode], by simp, Or.inl rfl, by simp [h]⟩
+    simp [decodeU] at h
+    exact ⟨[], by simp [rawEncode], by simp, by simp [h]⟩
   | succ n ih =>
     intro bs acc res hl h
     match bs with
     | [] =>
-      simp [decodeAux] at h
-      exact ⟨[], [], by simp [rawEncode], by simp, Or.inl rfl, by simp [h]⟩
-    | k :: tail =>
-      by_cases hk : filtered ex k = true
-      · simp only [decodeAux, hk, if_true] at h
-        cases h
-        exact ⟨[], k :: tail, by simp [rawEncode], by simp, Or.inr ⟨k, tail, rfl, hk⟩, by simp⟩
-      · match tail with
-        | [] => simp [decodeAux, hk] at h
-        | len :: rest =>
-          simp only [decodeAux, hk, if_false] at h
-          by_cases hlen : (rest.take len.toNat).length ≠ len.toNat
-          · rw [if_pos hlen] at h; cases h
-          · rw [if_neg hlen] at h
-            have hl' : (rest.drop len.toNat).length ≤ n := by simp at hl ⊢; omega
-            obtain ⟨raw, rest', hbs, hall, hrest, hres⟩ := ih _ _ _ hl' h
-            have hlen' : (rest.take len.toNat).length = len.toNat := by simpa using hlen
-            refine ⟨(k, rest.take len.toNat) :: raw, rest', ?_, ?_, hrest, ?_⟩
-            · rw [rawEncode_cons, hlen']
-              simp only [UInt8.ofNat_toNat, List.cons_append, List.append_assoc, ← hbs,
-                List.take_append_drop]
-            · intro r hr
-              simp only [List.mem_cons] at hr
-              rcases hr with rfl | hr
-              · refine ⟨?_, by simpa using hk⟩
-                rw [hlen']; have := len.toNat_lt; omega
-              · exact hall r hr
-            · simp [hres]
+      simp [decodeU] at h
+      exact ⟨[], by simp [rawEncode], by simp, by simp [h]⟩
+    | [k] => simp [decodeU] at h
+    | k :: len :: rest =>
+      simp only [decodeU] at h
+      by_cases hlen : (rest.take len.toNat).length ≠ len.toNat
+      · rw [if_pos hlen] at h; cases h
+      · rw [if_neg hlen] at h
+        have hl' : (rest.drop len.toNat).length ≤ n := by simp at hl ⊢; omega
+        obtain ⟨raw, hbs, hall, hres⟩ := ih _ _ _ hl' h
+        have hlen' : (rest.take len.toNat).length = len.toNat := by simpa using hlen
+        refine ⟨(k, rest.take len.toNat) :: raw, ?_, ?_, ?_⟩
+        · rw [rawEncode_cons, hlen']
+          simp only [UInt8.ofNat_toNat, ← hbs, List.take_append_drop]
+        · intro r hr
+          simp only [List.mem_cons] at hr
+          rcases hr with rfl | hr
+          · rw [hlen']; have := len.toNat_lt; omega
+          · exact hall r hr
+        · simp [hres]
 
 end HapVerif.Tlv
